@@ -364,6 +364,33 @@ func ruleStickyMonotone(c *Ctx) {
 		}
 		fp := funcProps(name)
 		n := 0
+		// a sticky flag is set because of what was dropped, never because of its own previous value
+		// (that would turn "just below" (-1) into "above" (+1)); Decimal.add's normalisation of a
+		// same-sign sum is the one place that does, and E6.polarity decides it
+		if name != "Decimal.add" && roleAlias[name] != "Decimal.add" {
+			m := 0
+			walkStack(fd.Body, func(nd ast.Node, stack []ast.Node) {
+				as, ok := nd.(*ast.AssignStmt)
+				if !ok || len(as.Lhs) != 1 || len(as.Rhs) != 1 {
+					return
+				}
+				k := p.exprKey(as.Lhs[0])
+				vn, isSticky := sv[k]
+				if !isSticky || p.constOf(as.Rhs[0]) == nil {
+					return
+				}
+				for i := len(stack) - 1; i >= 0; i-- {
+					ifs, ok := stack[i].(*ast.IfStmt)
+					if !ok || !containsNode(ifs.Body, as) {
+						continue
+					}
+					if p.readsVar(ifs.Cond, k) {
+						m++
+						c.bad(fmt.Sprintf("sticky.self:%s:%s#%d", name, vn, m), ifs, fmt.Sprintf("%s: the sticky flag %s is set under the condition `%s`, which reads the flag itself: a flag of -1 (exact value just below the kept digits) would become +1", name, vn, p.exprStr(ifs.Cond)), fp...)
+					}
+				}
+			})
+		}
 		ast.Inspect(fd.Body, func(nd ast.Node) bool {
 			as, ok := nd.(*ast.AssignStmt)
 			if !ok {
